@@ -8,20 +8,20 @@ CONFIG = {
     "level": "proof",
     "trusted_base": [
         KERNEL, TRANSLATOR + " (ReflectGen.v: keyed composite literals of ToJ5Field / ToJ5Root / ToJ5Object / ToJ5EnumValue / ToJ5Proto and of schemaFromDesc / objectSchemaFromDesc / oneofSchemaFromDesc / enumSchemaFromDesc / objectPropertyFromDesc, intKinds / floatKinds; the model computes with these tables)", CORR, HARNESS,
-        "exported-schema dump (harness/descgen/dump.go RootTerm): schema_j5pb.RootSchema -> Coq root term, list-rule / ext / entity payloads as opaque tokens",
-        "modelled, not verified: proto.Equal, protodesc.NewFiles, structure.APIFromImage's package bookkeeping (getSchemaSet / sub-packages) outside addSchemas",
+        "exported-API dump (harness/descgen/dump.go APITerm / RootTerm): source_j5pb.API -> Coq xapi term (packages, indirect flags, sub-packages);: schema_j5pb.RootSchema -> Coq xroot term (the source form, coq/model/ExportForm.v), list-rule / ext / entity payloads as opaque tokens",
+        "modelled, not verified: proto.Equal, protodesc.NewFiles, the services / topics part of APIFromImage (addStructure; the generated descriptor sets have no services)",
     ],
     "assumptions": [
         "model/Export.v is the hand-written model of ToJ5Root/ToJ5Field and PackageSetFromSourceAPI; which members are copied is read from the Go source on every run; tied to the code by the correspondence stream (first export = model export of the model's reflection; model import of the observed export re-exports to the observed second export)",
-        "inline (non-ref) object / oneof / enum field schemas are outside the model: the export of reflected schemas never produces them",
+        "inline (non-ref) object / oneof / enum field schemas are representable in the source form (XInline) with their content not modelled: the export of reflected schemas never produces them and the import cannot link them (C15_inline_not_importable; the Go failure is at assertRefsLink, the model reports it at the field)",
     ],
     "mult_search": 3,
     "refuted": [],
-    "partial": ["C15_reflected_roundtrip holds under the hypothesis wf_keys (enums non-empty; split names of messages / enums / real oneofs pairwise distinct: a hypothesis, not a guarantee of a linked set; nothing is assumed about JSON or property names); C15_full_statement (a Definition) is neither proved nor refuted without it", "export_set models addSchemas only: APIFromImage's package bookkeeping (splitPackageParts errors, listed vs indirect packages, sub-packages) is outside the Coq model and covered by the correspondence stream only", "the export form is the schema type with scalar Kind / WKT name erased; the theorems' content is the copy tables (member names, not value expressions), the refTo environment of buildSchemas and the reader invariants"],
+    "partial": ["C15_reflected_roundtrip holds under the hypothesis wf_keys (enums non-empty; split names of messages / enums / real oneofs pairwise distinct: a hypothesis, not a guarantee of a linked set; nothing is assumed about JSON or property names); C15_full_statement (a Definition) is neither proved nor refuted without it", "the export form is a Gallina type of its own (ExportForm.v: xroot / xfield / xprop / xschema, modelled on schema.proto) and export / import are functions between the two types; they are still table-driven member-by-member copies, so the theorems' content is the copy tables (member names, with the source text of each value tied by C15_copy_lines_read_the_member_the_model_copies), the recomputation of Kind / WKT name by the import, the refTo environment of buildSchemas and the reader invariants"],
 }
 
 MANIFEST = {
     "text": "Theorems over a table-driven Gallina model of the schema export (ToJ5Root / ToJ5Field) and import (PackageSetFromSourceAPI): field-by-field and root-by-root inverse lemmas (every rule, list rule, ext, flatten flag, entity marker, any-membership, enum prefix / option info / info fields), lifted over the reference environment (every schema found again under its name exporting to the same form, nothing added, every reference resolved) and independence of the map iteration order of buildSchemas.",
-    "note": "Proved under the hypothesis wf_keys (enums non-empty, split names of messages / enums / real oneofs distinct: the latter is not guaranteed by a linked set) for every successful reflection (model of SchemaSetFromFiles + addSchemas, not of APIFromImage's package routing): export, re-import, re-export gives exactly the same form with every reference resolved (C15_reflected_roundtrip, composing the reader model's invariant with the table-driven export/import model); field-by-field and root-by-root inverse lemmas; independence of the buildSchemas iteration order. Not claimed without wf_keys (split-name collisions). Inline field schemas are outside the model. Trusted: Coq kernel; translator (copy tables); harness.",
+    "note": "Proved under the hypothesis wf_keys (enums non-empty, split names of messages / enums / real oneofs distinct: the latter is not guaranteed by a linked set) for every successful reflection (model of APIFromImage: selector, SchemaSetFromFiles, addSchemas with getSchemaSet / getPackage / getSubPackage / splitPackageParts; PackageSetFromSourceAPI with its package naming): export, re-import, re-export gives exactly the same form with every reference resolved (C15_api_roundtrip through the package structure of the API, C15_reflected_roundtrip over the flat list; splitting a package name and re-joining it is the identity, filing into packages / sub-packages keeps every entry exactly once; composing the reader model's invariant with the table-driven export/import model); field-by-field and root-by-root inverse lemmas; independence of the buildSchemas iteration order. Not claimed without wf_keys (split-name collisions). The source form is a separate term type (export : root -> xroot, import : xroot -> root); inline field schemas are representable and proved not importable. Trusted: Coq kernel; translator (copy tables); harness.",
     "technique": "Rocq/Coq proof over a model that computes with copy tables regenerated from the Go composite literals + in-Coq differential correspondence (export, re-import, second export) in crash-isolated workers",
 }
